@@ -64,6 +64,9 @@ type Config struct {
 	// bookkeeping then touch DIFFERENT pages, and a lost page version cannot be masked by a later write that
 	// happens to rewrite the same page. 0 in replay files recorded before the field existed.
 	Prefill int `json:"prefill"`
+	// BusyTimeoutMS is litestream's SQLite busy timeout (0 = fail immediately, the harness default; the
+	// product default is 1000). Only the LCW operation needs it to be non-zero.
+	BusyTimeoutMS int `json:"busy_timeout_ms,omitempty"`
 }
 
 // DefaultConfig returns the baseline configuration used by most checks.
@@ -355,7 +358,7 @@ func (s *Scn) Levels() litestream.CompactionLevels {
 func (s *Scn) lsNew() error {
 	db := litestream.NewDB(s.DBPath)
 	db.MonitorInterval = 0
-	db.BusyTimeout = 0
+	db.BusyTimeout = time.Duration(s.Cfg.BusyTimeoutMS) * time.Millisecond
 	db.MinCheckpointPageN = s.Cfg.MinCheckpointPageN
 	db.TruncatePageN = s.Cfg.TruncatePageN
 	db.CheckpointInterval = time.Duration(s.Cfg.CheckpointInterval)
